@@ -338,8 +338,14 @@ def sub_cases(draw, cwd_kind=None, hashseed=None):
 
 
 def subprocess_oracle(ctx, s):
-    ds = Dataset(s)
-    r = place_pressures(ds)
+    if s.get("example"):
+        from ..datasets import ExampleDataset
+        ds = ExampleDataset(s["example"])
+        r = (ds.qha_settings(nt=4, dt=250.0), None)
+        s = dict(s, system=ds.system)
+    else:
+        ds = Dataset(s)
+        r = place_pressures(ds)
     if r is None:
         return None
     data = tempfile.mkdtemp(prefix="cijc14d-")
@@ -373,11 +379,13 @@ def subprocess_oracle(ctx, s):
 
 def sub_subprocess(ctx):
     def body(s):
+        if not ctx.quick and ctx.shard % 4 == 3:
+            s = dict(s, example="akimotoite")          # measured spectra, symmetry filling (trigonal7) in a subprocess
         info = subprocess_oracle(ctx, s)
         if info is None:
             ctx.stats.skip("unusable-dataset")
             return
-        ctx.case(s, s["cwd_kind"] != "empty", classes=["cwd-" + s["cwd_kind"], "hashseed-%s" % s["hashseed"]])
+        ctx.case(s, s["cwd_kind"] != "empty", classes=["cwd-" + s["cwd_kind"], "hashseed-%s" % s["hashseed"]] + (["example-akimotoite"] if s.get("example") else []))
 
     # Hypothesis' first example is always the simplest one: with one example per shard every shard would run the same
     # case, so the two environment dimensions are stratified over the shards (still drawn through a strategy)
